@@ -57,7 +57,7 @@ var (
 	npollers = []int{1, 2, 4}
 	readBufs = []int{1, 7, 512, 4096, 65536}
 	maxReads = []int{1, 3, 0}
-	patterns = []string{"burst", "small", "bytewise", "pause", "big", "halfclose"}
+	patterns = []string{"burst", "small", "bytewise", "pause", "big", "halfclose", "fullclose"}
 )
 
 func genCase(r *h.Run, idx int) caseT {
@@ -294,7 +294,7 @@ func runCase(r *h.Run, c caseT) {
 			for off < len(data) {
 				var n int
 				switch c.Pattern {
-				case "burst", "halfclose":
+				case "burst", "halfclose", "fullclose":
 					n = len(data)
 				case "small":
 					n = 1 + prng.Intn(200)
@@ -334,6 +334,10 @@ func runCase(r *h.Run, c caseT) {
 				case *net.UnixConn:
 					_ = v.CloseWrite()
 				}
+			}
+			if c.Pattern == "fullclose" {
+				// everything written before is still owed to the application
+				_ = p.conn.Close()
 			}
 		}(p, c.Seed+int64(p.id))
 	}
@@ -388,8 +392,8 @@ func runCase(r *h.Run, c caseT) {
 							}
 						}
 					}
-					if c.Pattern == "halfclose" && notified && len(data) < sentTotal {
-						dropped = fmt.Sprintf("connection fd %d was closed by nbio (%v) after delivering %d bytes; the peer had written %d bytes before it half-closed", cn.Hash(), ce, len(data), sentTotal)
+					if (c.Pattern == "halfclose" || c.Pattern == "fullclose") && notified && len(data) < sentTotal {
+						dropped = fmt.Sprintf("connection fd %d was closed by nbio (%v) after delivering %d bytes; the peer had written %d bytes before it %s", cn.Hash(), ce, len(data), sentTotal, map[string]string{"halfclose": "half-closed", "fullclose": "closed"}[c.Pattern])
 					}
 					continue
 				}
@@ -418,7 +422,7 @@ func runCase(r *h.Run, c caseT) {
 	sig := fmt.Sprintf("c02:%s:%s:%s:%s", c.Net, c.Mode, map[bool]string{false: "sync", true: "async"}[c.Async], c.Exec)
 	if stuck != "" {
 		if len(stuck) > 10 && stuck[:10] == "halfclose:" {
-			r.Violate(fmt.Sprintf("c02:halfclose:%s:%s:unread-data-dropped", c.Mode, map[bool]string{false: "sync", true: "async"}[c.Async]), stuck[10:]+"\nconfig "+c.cell(), c)
+			r.Violate(fmt.Sprintf("c02:%s:%s:%s:unread-data-dropped", c.Pattern, c.Mode, map[bool]string{false: "sync", true: "async"}[c.Async]), stuck[10:]+"\nconfig "+c.cell(), c)
 			return
 		}
 		if len(stuck) > 12 && stuck[:12] == "inconclusive" {
@@ -786,7 +790,7 @@ func main() {
 		guarded(r, c)
 		return
 	}
-	n := r.N(108, 1620)
+	n := r.N(432, 3240)
 	for i := 0; i < n; i++ {
 		if !r.Mine(i) {
 			continue
